@@ -910,10 +910,11 @@ package orda
 
 //@ func (*ordaMap).Put
 //@   mode math
-//@   props C03 C02
+//@   props C03 C02 C14
 //@   requires mapTxAPI(its) && mapTxOK(its)
 //@   ensures[empty-key-and-null-value-are-refused-and-issue-nothing] key == "" || value == nil ==> result1 != nil && G.sentences == old(G.sentences)
 //@   ensures[an-accepted-put-is-issued-as-one-operation] key != "" && value != nil ==> G.sentences == old(G.sentences) + 1
+//@   ensures[the-issued-operation-carries-the-key-and-the-normalised-value] key != "" && value != nil ==> G.lastOp.(*operations.PutOperation) && putBody(G.lastOp).Key == key && putBody(G.lastOp).Value != nil && ((value.(int) || value.(int32) || value.(int64) || value.(float32) || value.(uint64)) ==> putBody(G.lastOp).Value.(float64))
 //@   modifies *
 
 //@ func (*ordaMap).Remove
